@@ -317,6 +317,18 @@ impl<'a> RecordView<'a> {
         let data_len = self.data.len();
         let header_len = self.header_len() as usize;
 
+        // A record written with this schema has the header layout of the full column
+        // set. All its columns are present even when it carries no data bytes at all
+        // (every column variable-length and empty or NULL).
+        let full_header_len = 2
+            + Schema::null_bitmap_size(self.schema.column_count())
+            + self.schema.var_column_count() * 2;
+        if header_len == full_header_len
+            && data_len >= header_len + self.schema.total_fixed_size()
+        {
+            return self.schema.column_count();
+        }
+
         if data_len <= header_len {
             return 0;
         }
